@@ -17,6 +17,11 @@ fn stream_env(cfg: &Cfg, ctl: &StreamCtl) {
     if cfg.opt("seager", 0) == 1 {
         ctl.set_eager_waker();
     }
+    // `syield`=k: the next k polls are cooperative yields (wake the caller, register nothing, Pending even if items are ready)
+    let y = cfg.opt("syield", 0);
+    if y > 0 {
+        ctl.set_yield_in_poll(y as usize);
+    }
 }
 
 pub fn list() -> Vec<(&'static str, super::Scenario)> {
